@@ -140,7 +140,7 @@ impl<'a> Ck<'a> {
         self.fam.cases += 1;
         self.fam.calls += 2;
         let d = &f.desc;
-        let key = || format!("{}|{}|t{}|{}", d.name, T::NAME, tid, hex(s));
+        let key = || if numeric_only { format!("{}|{}|num|{}", d.name, T::NAME, hex(s)) } else { format!("{}|{}|t{}|{}", d.name, T::NAME, tid, hex(s)) };
         let (neg, body) = match s.first() {
             Some(b'-') => (true, &s[1..]),
             Some(b'+') => (false, &s[1..]),
@@ -316,15 +316,17 @@ fn main() {
             write_side::<f64>(&rep);
             write_side::<f32>(&rep);
         } else {
-            let tid: usize = p[2][1..].parse().unwrap();
+            let numeric = p[2] == "num";
+            let tid: usize = if numeric { 0 } else { p[2][1..].parse().unwrap() };
             let s = unhex(p[3]);
             for f in &cat {
                 if f.desc.name == p[0] {
-                    let t = &ts[tid];
+                    let dflt = Triple { nan: Some(b"NaN"), inf: Some(b"inf"), infinity: Some(b"infinity") };
+                    let t = if numeric { &dflt } else { &ts[tid] };
                     let o = ParseFloatOptions::builder().nan_string(t.nan).inf_string(t.inf).infinity_string(t.infinity).build().unwrap();
                     let mut c = Ck { rep: &rep, fam: Fam::new(&rep, "replay") };
-                    c.parse_case::<f64>(f, f.f64, t, tid, &o, &s, false);
-                    c.parse_case::<f32>(f, f.f32, t, tid, &o, &s, false);
+                    c.parse_case::<f64>(f, f.f64, t, tid, &o, &s, numeric);
+                    c.parse_case::<f32>(f, f.f32, t, tid, &o, &s, numeric);
                     c.done();
                 }
             }
